@@ -8,7 +8,7 @@ const V = require('../lib/vue');
 const E = require('../lib/espace');
 
 const OPT_VECTORS = [...boolVectors(['mergeProps', 'transformOn', 'optimize'])];
-const { SYM } = require('../lib/tsyms');
+const { SYM_ATTR: SYM } = require('../lib/tsyms');
 
 function expectedProps(contribs, opts) {
   if (!contribs.length) return null;
@@ -141,7 +141,7 @@ function* shrink(c) {
   if (c.sp === 'P') { for (let i = 0; i < c.uses.length; i++) if (c.uses.length > 1) yield { sp: 'P', uses: c.uses.slice(0, i).concat(c.uses.slice(i + 1)) }; return; }
   if (c.sp === 'S') {
     for (let i = 0; i < c.s.length; i++) yield { sp: 'S', s: c.s.slice(0, i).concat(c.s.slice(i + 1)) };
-    for (let i = 0; i < c.s.length; i++) if ([9, 10].includes(c.s[i])) { const s = c.s.slice(); s[i] = 0; yield { sp: 'S', s }; }
+    for (let i = 0; i < c.s.length; i++) if (['b', '&amp;'].includes(SYM[c.s[i]][0])) { const s = c.s.slice(); s[i] = 0; yield { sp: 'S', s }; }
     return;
   }
   for (let i = 0; i < c.attrs.length; i++) yield Object.assign({}, c, { attrs: c.attrs.slice(0, i).concat(c.attrs.slice(i + 1)) });
